@@ -29,7 +29,10 @@ PROP = {
                       "calls_with_segments_along_a_side", "length_checks_with_slack_below_quarter_of_length"],
                      ["length_checked", "order_points_mapped", "multi_polyline_calls", "polylines_crossing_the_boundary",
                       "calls_with_segments_along_a_side", "length_checks_with_slack_below_quarter_of_length"]),
+    "timeout": _q(150, 3600),
     "jobs": [
-        {"mon": "mon_c09", "cfg": "plain", "cases": _q(100000, 4000000)},
+        # address-space cap and a short watchdog: a defect in the clip loop that allocates without bound must end as a
+        # crash/timeout report, not take the machine down (the monitors themselves need < 100 MB)
+        {"mon": "mon_c09", "cfg": "plain", "cases": _q(100000, 4000000), "prefix": ["prlimit", "--as=4000000000"]},
     ],
 }
